@@ -32,6 +32,14 @@ impl Typstyle {
         let attrs = AttrStore::new(node.get()); // Here we only compute the attributes of that subtree.
         let printer = PrettyPrinter::new(self.config.clone(), attrs);
         let ctx = Context::default().with_mode(mode);
+        // Inside an equation nothing may be broken, not even embedded code.
+        let in_equation =
+            std::iter::successors(node.parent(), |n| n.parent()).any(|n| n.kind() == SyntaxKind::Equation);
+        let ctx = if in_equation {
+            ctx.suppress_breaks()
+        } else {
+            ctx
+        };
         let doc = if let Some(markup) = node.cast() {
             printer.convert_markup(ctx, markup)
         } else if let Some(expr) = node.cast() {
